@@ -171,7 +171,19 @@ def run(ctx):
     res.check(bool(gv.calls_to(r"PossibleValue::is_hide_set$")) or reads_field(gv, "hide"), "R12.2", "hide|get_visible_quoted_name", gv.where(), "get_visible_quoted_name tests is_hide_set", "get_visible_quoted_name ignores is_hide_set")
     hp = fx.body("clap_builder::output::help_template::HelpTemplate::help")
     pvf = [c for c in hp.calls_to(r"Iterator::filter$") if re.search(r"get_possible_values", expr(hp, c.args[0]))]
-    res.floor("R12.2", "possible-value filters in help()", len(pvf), 2)
+    unf = []
+    for c in hp.calls():
+        for a in c.args:
+            e = expr(hp, a)
+            for m in re.finditer(r"(\w+)\((?:into_)?iter\((?:deref\()?get_possible_values\(", e):
+                if m.group(1) != "filter":
+                    unf.append((c, e))
+            if re.search(r"(?<!\w)(next|into_iter)\((?:deref\()?get_possible_values\(", e):
+                unf.append((c, e))
+    res.check(not unf, "R12.2", "hide|help-possible-values-all-filtered", unf[0][0].where() if unf else hp.where(), "every iteration over the possible values in help() goes through a filter",
+              "help() iterates the possible values without a visibility filter: %s" % (unf[0][1][:100] if unf else ""))
+    if not unf:
+        res.floor("R12.2", "possible-value filters in help()", len(pvf), 2)
     for k, c in enumerate(pvf):
         res.check(any(cb.calls_to(r"PossibleValue::is_hide_set$") for cb in closure_bodies(fx, c)), "R12.2", "hide|help-possible-values|%d" % k, c.where(),
                   "filter(!is_hide_set)", "possible values in long help are not filtered by is_hide_set")
